@@ -290,8 +290,10 @@ def run_history(arg):
                 st["trace"] = rec.trace if not simple else [c if c[0] != "write" else ("write", c[1], b"") for c in rec.trace]
                 st["refs_before"] = refs_b
                 if raised:
-                    # a refused append is not an append (what it leaves behind is C18's subject); the history ends here
+                    # every generated batch has the columns and dtypes of the first write: the append has to be accepted
+                    # (what a refused append leaves behind is C18's subject); the history ends here
                     st["raised"] = raised
+                    st["problems"].append(("append-raised", "append of a schema-compatible frame raised %s" % raised))
                     out["outcome"] = "append-raised"
                     out["steps"].append(st)
                     break
@@ -332,13 +334,24 @@ def run_history(arg):
                 pf = ParquetFile(target)
                 whole = pf.to_pandas()
                 return (frame_cells(whole, bool(h["index"])), dsfs.refs_of(pf) if not simple else [], len(pf.row_groups),
-                        cat_observation(pf, whole, [c["name"] for c in h["cols"] if c["kind"] in CAT_KINDS]))
+                        cat_observation(pf, whole, [c["name"] for c in h["cols"] if c["kind"] in CAT_KINDS]),
+                        old_chunk_ranges(pf) if simple else [])
             s, val = dsfs.guarded(reader, READ_TIMEOUT)
             if s != "ok":
                 st["problems"].append(("unreadable", "fresh open/read after step %d: %s %s" % (i, s, val)))
             else:
-                got, refs_a, nrg, st["cat"] = val
+                got, refs_a, nrg, st["cat"], ranges_a = val
                 st["nrg"] = nrg
+                if simple and i > 0:
+                    # the new footer lists the old column chunks first and unchanged, then the new ones, which lie
+                    # between the old footer start and the new footer start, in order (model: descs ++ place loc rgs)
+                    loc_a = len(after) - 8 - int.from_bytes(after[-8:-4], "little")
+                    if ranges_a[:len(ranges)] != ranges:
+                        st["problems"].append(("old-row-group-metadata-changed", "byte ranges of the old column chunks %s -> %s" % (
+                            ranges[:3], ranges_a[:3])))
+                    new_r = ranges_a[len(ranges):]
+                    if any(not (loc <= a <= b <= loc_a) for a, b in new_r) or any(x[1] > y[0] for x, y in zip(new_r, new_r[1:])):
+                        st["problems"].append(("new-row-groups-misplaced", "new column chunks %s not in order inside [%d, %d)" % (new_r[:4], loc, loc_a)))
                 if not simple and i > 0:
                     if refs_a[:len(refs_b)] != refs_b:
                         st["problems"].append(("old-row-groups-reordered", "references before %s, after %s" % (refs_b[:4], refs_a[:4])))
@@ -402,7 +415,7 @@ def run(ctx):
     C.pqref()
     import multiprocessing as mp
     rng = ctx.rng
-    nh, nconf = (110, 10) if ctx.quick() else (1400, 60)
+    nh, nconf = (300, 20) if ctx.quick() else (3000, 100)
     ctx.rule = ("history = first write + 1..4 appends of frames with the same columns and dtypes (%d kinds incl. nullable, strings, bytes, json, "
                 "timestamps, categoricals; nulls none/some/all/first/last; 0..200 rows), row_group_offsets None/int/list and codec varied per "
                 "step; schemes simple / hive / hive with 1-2 partition columns / drill(flat); written index in 20%%; main stream keeps the category "
